@@ -286,6 +286,7 @@ func (s *shadow) add(sg geom.Seg) {
 	sub.Segs = append(sub.Segs, sg)
 	s.cur = sg.P3
 }
+
 // arc follows Path.Arc as documented: an arc of the ellipse with radii rx, ry rotated by rot degrees,
 // from angle theta0 to theta1 (degrees, counter-clockwise when theta0 < theta1), starting at the current
 // point; a difference of 360 degrees or more draws one full turn and the remainder. The arc is requested
